@@ -55,3 +55,54 @@ package dmap
 //@   flag skip nil
 //@   requires #args: len(cmd.Args) >= 1
 //@   requires #parts: s.parts()
+
+// ---------------------------------------------------------------------------------------------------
+// C09: expiry. Time is the ghost clock now() (nanoseconds, monotone; every time.Now() reads it). An entry
+// with expiry ttl (ms, 0 = never) is dead at instant t iff ttl != 0 && t/1000000 >= ttl.
+//@ pure func deadAt(ttl int64, t int) bool = ttl != 0 && t/1000000 >= ttl
+
+//@ func isKeyExpired(ttl int64) bool
+//@   props C09
+//@   flag clock
+//@   flag termination
+//@   ensures #iff [C09]: result == deadAt(ttl, now())
+//@   ensures #no_clock_when_persistent: ttl == 0 ==> now() == old(now())
+//@   modifies EvictedTotal.counter
+
+// Expiry computed for a write: relative forms are added to the clock reading, absolute forms are taken
+// as given, the DMap/default timeout applies when no option is set, otherwise 0 (no expiry).
+// Durations are assumed to be non-negative and below 2^62 ns (about 146 years): the sum with the clock is
+// then exact.
+//@ func prepareTTL(e *env) int64
+//@   props C09
+//@   flag clock
+//@   flag termination
+//@   requires #env: e != nil && e.putConfig != nil
+//@   requires #durations: 0 <= e.putConfig.EX && e.putConfig.EX < 4611686018427387904 && 0 <= e.putConfig.PX && e.putConfig.PX < 4611686018427387904 &&
+//@                0 <= e.putConfig.EXAT && 0 <= e.putConfig.PXAT && 0 <= e.timeout && e.timeout < 4611686018427387904
+//@   ensures #ex [C09]:   e.putConfig.HasEX ==> result == (e.putConfig.EX + now()) / 1000000
+//@   ensures #px [C09]:   !e.putConfig.HasEX && e.putConfig.HasPX ==> result == (e.putConfig.PX + now()) / 1000000
+//@   ensures #exat [C09]: !e.putConfig.HasEX && !e.putConfig.HasPX && e.putConfig.HasEXAT ==> result == e.putConfig.EXAT / 1000000
+//@   ensures #pxat [C09]: !e.putConfig.HasEX && !e.putConfig.HasPX && !e.putConfig.HasEXAT && e.putConfig.HasPXAT ==> result == e.putConfig.PXAT / 1000000
+//@   ensures #default [C09]: !e.putConfig.HasEX && !e.putConfig.HasPX && !e.putConfig.HasEXAT && !e.putConfig.HasPXAT ==>
+//@                result == ite(e.timeout == 0, 0, (e.timeout + now()) / 1000000)
+//@   modifies nothing
+
+// Conditions of a conditional write, with the fragment lock held. A key that is dead counts as absent for
+// NX and as missing for XX. The clock may advance during the call: "live at the end" implies live at the
+// check, "dead at the start" implies dead at the check.
+//@ func (dm *DMap) checkPutConditions(e *env) error
+//@   props C09 C15
+//@   flag clock
+//@   flag termination
+//@   requires #env: e != nil && e.putConfig != nil && e.fragment != nil && e.fragment.storage != nil
+//@   ensures #none [C09]: !e.putConfig.HasNX && !e.putConfig.HasXX && !e.putConfig.OnlyUpdateTTL ==> result == nil
+//@   ensures #nx_live [C09]: e.putConfig.HasNX && e.fragment.storage.has[e.hkey] && !deadAt(e.fragment.storage.ttl[e.hkey], now()) ==> result == ErrKeyFound
+//@   ensures #nx_absent [C09]: e.putConfig.HasNX && !e.putConfig.HasXX && !e.putConfig.OnlyUpdateTTL &&
+//@                (!e.fragment.storage.has[e.hkey] || deadAt(e.fragment.storage.ttl[e.hkey], old(now()))) ==> result == nil
+//@   ensures #xx_missing [C09]: (e.putConfig.HasXX || e.putConfig.OnlyUpdateTTL) &&
+//@                (!e.fragment.storage.has[e.hkey] || deadAt(e.fragment.storage.ttl[e.hkey], old(now()))) ==> result == ErrKeyNotFound
+//@   ensures #xx_live [C09]: (e.putConfig.HasXX || e.putConfig.OnlyUpdateTTL) && !e.putConfig.HasNX && e.fragment.storage.has[e.hkey] &&
+//@                !deadAt(e.fragment.storage.ttl[e.hkey], now()) ==> result == nil
+//@   ensures #err_kind: result == nil || result == ErrKeyFound || result == ErrKeyNotFound
+//@   modifies EvictedTotal.counter
